@@ -76,11 +76,11 @@ def getExt (kf : KeyFile) (g k : Option Str) : Except Err ExtValue :=
 
 /-! ### options -/
 
-def optJoin : Str := bs "JOIN_SAME_ENTRIES=1"
-def optPython : Str := bs "PYTHON_STYLE=1"
-def optParsingDirs : Str := bs "PARSING_DIRS="
-def optConfigDirs : Str := bs "CONFIG_DIRS="
-def optRootPrefix : Str := bs "ROOT_PREFIX="
+def optJoin : Str := [0x4a, 0x4f, 0x49, 0x4e, 0x5f, 0x53, 0x41, 0x4d, 0x45, 0x5f, 0x45, 0x4e, 0x54, 0x52, 0x49, 0x45, 0x53, 0x3d, 0x31] /- "JOIN_SAME_ENTRIES=1" -/
+def optPython : Str := [0x50, 0x59, 0x54, 0x48, 0x4f, 0x4e, 0x5f, 0x53, 0x54, 0x59, 0x4c, 0x45, 0x3d, 0x31] /- "PYTHON_STYLE=1" -/
+def optParsingDirs : Str := [0x50, 0x41, 0x52, 0x53, 0x49, 0x4e, 0x47, 0x5f, 0x44, 0x49, 0x52, 0x53, 0x3d] /- "PARSING_DIRS=" -/
+def optConfigDirs : Str := [0x43, 0x4f, 0x4e, 0x46, 0x49, 0x47, 0x5f, 0x44, 0x49, 0x52, 0x53, 0x3d] /- "CONFIG_DIRS=" -/
+def optRootPrefix : Str := [0x52, 0x4f, 0x4f, 0x54, 0x5f, 0x50, 0x52, 0x45, 0x46, 0x49, 0x58, 0x3d] /- "ROOT_PREFIX=" -/
 
 /-- one `;`-separated item -/
 def applyOption (kf : KeyFile) (o : Str) : Except Err KeyFile :=
